@@ -49,6 +49,13 @@ func checkC10(c *Ctx) {
 							if cv, ok := st.Val.(*ssa.Call); ok && core.CallOf(cv).Builtin() == "append" {
 								found = true
 							}
+							// or assigned once from a slice that was appended to (accumulated in a local first)
+							if depReaches(st.Val, func(v ssa.Value) bool {
+								ac, ok := v.(*ssa.Call)
+								return ok && core.CallOf(ac).Builtin() == "append"
+							}) {
+								found = true
+							}
 						}
 					}
 				}
